@@ -452,6 +452,33 @@ func (x *Engine) loopHeader(fr *Frame, li *loopInfo, st *State) {
 		if !ok {
 			break
 		}
+		// a plain counting loop `for i := c; i < n; i++`: i starts at the constant c, the only other value it ever gets is
+		// i+1 computed after the guard i < n let the iteration in (so the increment cannot wrap): i >= c at the head
+		if phi.Comment != "rangeindex" && len(phi.Edges) == 2 {
+			var start *ssa.Const
+			counts := false
+			for _, e := range phi.Edges {
+				switch v := e.(type) {
+				case *ssa.Const:
+					if b, ok := v.Type().Underlying().(*types.Basic); ok && b.Info()&types.IsInteger != 0 && b.Info()&types.IsUnsigned == 0 {
+						start = v
+					}
+				case *ssa.BinOp:
+					if k, ok := v.Y.(*ssa.Const); ok && v.Op == token.ADD && v.X == ssa.Value(phi) && k.Value != nil && k.Value.ExactString() == "1" && li.blocks[v.Block()] {
+						counts = true
+					}
+				}
+			}
+			guarded := false
+			if iff, ok := h.Instrs[len(h.Instrs)-1].(*ssa.If); ok {
+				if cmp, ok := iff.Cond.(*ssa.BinOp); ok && cmp.Op == token.LSS && cmp.X == ssa.Value(phi) && cmp.Block() == h && len(h.Succs) == 2 && li.blocks[h.Succs[0]] && !li.blocks[h.Succs[1]] {
+					guarded = true
+				}
+			}
+			if start != nil && counts && guarded {
+				x.assume(st, fmt.Sprintf("(>= %s %s)", fr.vals[phi].T, x.constVal(start).T))
+			}
+		}
 		if phi.Comment == "rangeindex" {
 			x.assume(st, fmt.Sprintf("(>= %s (- 1))", fr.vals[phi].T))
 			// by construction of a range loop the number of completed iterations never exceeds the length
